@@ -146,6 +146,8 @@ def run(ck):
         for two in (False, True):
             for n in (range(65500, 65545) if T else (65519, 65521, 65522, 65523, 65524, 65526, 65527, 65528)):
                 sweep.append([ts_frame(rng, n, key=key, two=two, pid=VPID)])
+                if not key:
+                    sweep.append([ts_frame(rng, n, key=False, two=two, pid=APID)])
     ck.stream("size_sweep", sweep, "C09_write", "C09_write", "C09_write_ok", nontrivial=writer_nontrivial,
               sig=lambda c, e, o: "writer", sample=2)
 
